@@ -28,7 +28,7 @@ COQ_PROPS_C08 = ['Properties_C08_kll']
 RULE_C07 = ('operation scripts over up to 4 registers holding kll_sketch<int64_t>, kll_sketch<double> (integer values, NaN updates and NaN split points) or '
             'kll_sketch<string, greater> (order-isomorphic encoding): k in {8,9,16,20,200} plus refused k (0,7,65536); streams sorted/reversed/random/constant/'
             'heavy duplicates of 0..~1500 items; merges of equal and unequal k, exact/estimating/empty operands, lvalue and rvalue, merge chains and trees '
-            '(level 0 left empty by a merge is frequent; 16 query -> change of content (update, merge of an empty / single-item / exact-mode / estimation-mode source, lvalue and rvalue, copy assignment) -> same queries histories: a cached sorted view must not survive; family klldeep: a sketch merged with a copy of itself 28..36 times (k = 8, 9, 20; 30..40 levels), n, iterator weights, sorted-view total and ranks checked after every merge; 5 merges of two estimation-mode sketches, k in {200, 20, 50, 30}, in which general_compress itself adds a level, sizes chosen with the size-only simulation, observed before and after and while further updates fill the buffer up to the next compaction: num_retained <= compute_total_capacity(k, num_levels) with the implementation\'s own num_levels; 12 merge trees of depth >= 2 with 3-4 distinct k from 8..400 whose deepest operand is in estimation mode: min_k and the published rank error are checked against the minimum over the tree); after the history every register is observed (n, min, max, num_retained, iterator listing) and queried: '
+            '(level 0 left empty by a merge is frequent; 16 query -> change of content (update, merge of an empty / single-item / exact-mode / estimation-mode source, lvalue and rvalue, copy assignment) -> same queries histories: a cached sorted view must not survive; family klldeep: a sketch merged with a copy of itself 30..38 times (k = 8, 9, 20; 30..40 levels, at least one history beyond 33), n, iterator weights, sorted-view total and ranks checked after every merge; 5 merges of two estimation-mode sketches, k in {200, 20, 50, 30}, in which general_compress itself adds a level, sizes chosen with the size-only simulation, observed before and after and while further updates fill the buffer up to the next compaction: num_retained <= compute_total_capacity(k, num_levels) with the implementation\'s own num_levels; 12 merge trees of depth >= 2 with 3-4 distinct k from 8..400 whose deepest operand is in estimation mode: min_k and the published rank error are checked against the minimum over the tree); after the history every register is observed (n, min, max, num_retained, iterator listing) and queried: '
             'rank grid, dyadic quantile grid incl. 0 and 1 and out-of-range ranks, CDF/PMF with valid, unsorted, duplicate and NaN split points, sorted-view listing; '
             'queries are also interleaved with updates (they sort level 0 in place). non-trivial = at least one compaction (coin drawn) or one merge')
 RULE_C08 = ('exhaustive enumeration on the implementation of ALL outcomes of the internal coin flips for short histories (updates and merges over registers; '
@@ -746,7 +746,7 @@ def gen_deep(rng, tier):
         k = [8, 20, 8, 9][di % 4]; kind = rng.choice([0, 1])
         xs = stream(rng, rng.randrange(k + 1, 3 * k)); lo, hi = min(xs), max(xs)
         ops = [[99, rng.randrange(1 << 30)], [1, 0, kind, k]] + [[2, 0, x] for x in xs] + [[5, 0]]
-        for j in range(rng.randrange(28, 37)):
+        for j in range([30, 34, 36, 32][di % 4] + rng.randrange(0, 3)):
             ops += [[13, 1, 0], [23, 0, 1], [5, 0], [10, 0], [6, 0, hi], [6, 0, lo - 1], [6, 0, rng.choice(xs)]]
         cases.append(dict(id='klldeep%d' % di, ops=ops, tags=['merge', 'levels>=30', 'k=%d' % k], n0=len(xs), lo=lo, hi=hi))
     return cases
